@@ -19,7 +19,7 @@ func init() {
 		rep := &vx.Report{Job: c.Job, Engine: "enum", Outcomes: map[string]int64{}, Exhaustive: true}
 		transport, browser := c.P("transport", "direct"), c.P("browser", "chrome")
 		full := c.P("product", "star") == "full"
-		methods := []string{"plain", "aes-256-gcm", "aes-128-gcm", "chacha20-poly1305"}
+		methods := []string{"plain", "aes-256-gcm", "aes-128-gcm", "chacha20-poly1305", "aes-gcm"} // the last one: the documented synonym of aes-256-gcm
 		if m := c.P("method", ""); m != "" {
 			methods = []string{m}
 		}
